@@ -332,8 +332,27 @@ var errCodeNames = map[template.ErrorCode]string{
 	template.ErrCSPCompatibility: "ErrCSPCompatibility", template.ErrUnbalancedJsTemplate: "ErrUnbalancedJsTemplate",
 }
 
+// error values returned by earlier calls are retained and re-read: a returned error must never change afterwards
+var retainedErrs []struct {
+	err error
+	msg string
+}
+
 func classify(err error) string {
-	_ = err.Error() // formatting the error is part of the API surface: it must not panic either
+	msg0 := err.Error() // formatting the error is part of the API surface: it must not panic either
+	for _, r := range retainedErrs {
+		if r.err != err && r.err.Error() != r.msg {
+			retainedErrs = nil
+			return "EARLIER-ERROR-VALUE-CHANGED"
+		}
+	}
+	retainedErrs = append(retainedErrs, struct {
+		err error
+		msg string
+	}{err, msg0})
+	if len(retainedErrs) > 16 {
+		retainedErrs = retainedErrs[1:]
+	}
 	var te *template.Error
 	if errors.As(err, &te) {
 		if n, ok := errCodeNames[te.ErrorCode]; ok {
